@@ -70,6 +70,9 @@ type Exec struct {
 	globals       map[string]func(*State) *Value
 	lenientLoops  bool // drop loop clauses that do not fit the loop they are attached to (check.go)
 	nonnilGlobals map[string]bool
+	fitLoops      []string                   // kind of each loop of the function under contract, by ordinal
+	fitHelpers    map[string]bool            // inlined repository functions without any contract entry
+	fitIdents     map[string]map[string]bool // contract identifier -> kinds of Go variable it resolved to
 	useContracts  bool
 	specAxioms    []*Term
 	globalRefs    map[string]*Term
@@ -575,6 +578,12 @@ func (x *Exec) computeLoops(fn *ssa.Function) (order []*ssa.BasicBlock, loops ma
 	for i, h := range hs {
 		loops[h].ordinal = i + 1
 	}
+	if isRootLoops := x.root == fn; isRootLoops {
+		x.fitLoops = nil
+		for _, h := range hs {
+			x.fitLoops = append(x.fitLoops, loopKind(h, loops[h]))
+		}
+	}
 	// reverse post-order ignoring back edges
 	visited := map[*ssa.BasicBlock]bool{}
 	var post []*ssa.BasicBlock
@@ -860,6 +869,9 @@ func (x *Exec) enterLoop(fr *Frame, li *loopInfo, entry *State, edgeStates []*St
 		if phi.Comment == "rangeindex" && fr.regs[phi].K == KScalar {
 			x.facts = append(x.facts, Implies(ds.guard, Ge(fr.regs[phi].Term, IntLit(-1))))
 		}
+		if lo, ok := countingPhi(phi, li); ok && fr.regs[phi].K == KScalar {
+			x.facts = append(x.facts, Implies(ds.guard, Ge(fr.regs[phi].Term, IntLit(lo))))
+		}
 	}
 	li.headState = ds.clone() // discovery pass: nested loops may refer to this loop's head (athead)
 	func() {
@@ -1004,6 +1016,10 @@ func (x *Exec) enterLoop(fr *Frame, li *loopInfo, entry *State, edgeStates []*St
 		if phi.Comment == "rangeindex" && v.K == KScalar {
 			// the hidden index of a range-over-slice loop starts at -1 and is only incremented
 			x.facts = append(x.facts, Implies(st.guard, Ge(v.Term, IntLit(-1))))
+		}
+		if lo, ok := countingPhi(phi, li); ok && v.K == KScalar {
+			// the counter of a `for i := c; ...; i++` loop starts at the constant c and is only incremented
+			x.facts = append(x.facts, Implies(st.guard, Ge(v.Term, IntLit(lo))))
 		}
 	}
 	keys := make([]string, 0, len(wkeys))
@@ -1342,4 +1358,73 @@ func (x *Exec) globalRef(name string) *Term {
 		Eq(x.ctx.App("globalId", IntSort, t), IntLit(int64(len(x.globalRefs)))),
 		Le(x.ctx.App("allocId", IntSort, t), IntLit(0)))
 	return t
+}
+
+// countingPhi recognises the counter of a counting loop: an integer phi at the loop head with exactly two
+// incoming values, a constant from outside the loop and itself plus a positive constant from inside. It returns the
+// initial constant (a lower bound of the counter at every loop head, by induction).
+func countingPhi(phi *ssa.Phi, li *loopInfo) (int64, bool) {
+	if len(phi.Edges) != 2 {
+		return 0, false
+	}
+	if b, ok := phi.Type().Underlying().(*types.Basic); !ok || b.Info()&types.IsInteger == 0 {
+		return 0, false
+	}
+	var init *ssa.Const
+	var step *ssa.BinOp
+	for _, e := range phi.Edges {
+		switch v := e.(type) {
+		case *ssa.Const:
+			init = v
+		case *ssa.BinOp:
+			step = v
+		}
+	}
+	if init == nil || step == nil || init.Value == nil || step.Op != token.ADD || step.X != ssa.Value(phi) {
+		return 0, false
+	}
+	inc, ok := step.Y.(*ssa.Const)
+	if !ok || inc.Value == nil || inc.Int64() <= 0 {
+		return 0, false
+	}
+	if li != nil && li.body != nil && !li.body[step.Block()] {
+		return 0, false
+	}
+	return init.Int64(), true
+}
+
+// phiStep: the constant a counting phi is incremented by.
+func phiStep(phi *ssa.Phi) (int64, bool) {
+	for _, e := range phi.Edges {
+		if b, ok := e.(*ssa.BinOp); ok && b.Op == token.ADD && b.X == ssa.Value(phi) {
+			if c, ok := b.Y.(*ssa.Const); ok && c.Value != nil {
+				return c.Int64(), true
+			}
+		}
+	}
+	return 0, false
+}
+
+// loopKind classifies a loop by the shape of its header: the loop clauses of a contract are written for a kind.
+func loopKind(h *ssa.BasicBlock, li *loopInfo) string {
+	for _, in := range h.Instrs {
+		if phi, ok := in.(*ssa.Phi); ok {
+			if phi.Comment == "rangeindex" {
+				return "indexed"
+			}
+			if lo, ok := countingPhi(phi, li); ok && lo == 0 {
+				if st, ok := phiStep(phi); ok && st == 1 {
+					return "indexed"
+				}
+			}
+			continue
+		}
+		if nx, ok := in.(*ssa.Next); ok {
+			if nx.IsString {
+				return "string-range"
+			}
+			return "map-range"
+		}
+	}
+	return "other"
 }
